@@ -26,7 +26,8 @@ theorem size_case (c : Ctx) (xs : List Val) (vs : List (Option Val))
       | [x], _ => exact ⟨x, rfl⟩
     subst hx
     simp only [List.map_cons, List.map_nil, List.cons.injEq, and_true] at h1
-    simp [eval, evalDoc, hcls, hm, evalOp, arityErr, binaryArithOps, comparisonOps, listOps,
+    rw [eval_shaped c "$size" _ (by decide) (by decide) (by decide) (by decide) (Or.inr rfl) hm]
+    simp [evalOp, arityErr, binaryArithOps, comparisonOps, listOps,
       arithmeticOps, unaryArithOps, groupingOps, evalSize, h1, sizeOp, bind, Except.bind,
       Except.map]
   match vs, hs, key with
@@ -78,12 +79,10 @@ theorem elemAt_case (c : Ctx) (xs : List Val) (vs : List (Option Val))
   have hl : listOps.contains "$arrayElemAt" = true := by decide
   match vs, hs, hr, h1 with
   | [a, i], hs, hr, h1 =>
-    simp only [strictReasons, arithOps] at hr
-    simp at hr
     have hlen : xs.length = 2 := by simpa using congrArg List.length h1
     have har : arityErr "$arrayElemAt" xs.length = none := by rw [hlen]; decide
     have hs' : elemAt a i = .ok r := by simpa [applyStrict] using hs
-    have hp := elemAt_pure a i (by simpa using hr) r hs'
+    have hp := elemAt_pure a i r hs'
     rw [eval_list c _ xs .project hcls (by simp) (by simp) (by simp) hm har hl]
     rw [show nullOnMissing c.ign "$arrayElemAt" = true by
           simp [nullOnMissing, usesParseOrNothing],
